@@ -1,12 +1,782 @@
-//! C06: not yet implemented
+//! C06: `MDL::from_existing` on synthetic models (encoded by the Lean `Spec/Mdl.encodeMdl`) and
+//! on the repository's sample.  The generator emits *abstract* models (token grammar documented
+//! in `lean/PhysisModel/Driver/C06Case.lean`); the file bytes are produced by the Lean driver.
 #![allow(unused)]
 use crate::util::*;
+use physis::model::{MDL, Part, Vertex};
+use std::fmt::Write as _;
 use std::io::Write;
 
-pub fn generate(thorough: bool, seed: u64, out: &mut dyn Write) {}
+// ---------------------------------------------------------------------------------------------
+// abstract model (generator side)
+// ---------------------------------------------------------------------------------------------
+#[derive(Clone, Default)]
+pub struct GElem {
+    pub stream: u8,
+    pub offset: u8,
+    pub ty: u8,
+    pub usage: u8,
+    pub uidx: u8,
+}
+
+#[derive(Clone, Default)]
+pub struct GSub {
+    pub off: u32,
+    pub count: u32,
+    pub mask: u32,
+    pub bstart: u16,
+    pub bcount: u16,
+}
+
+#[derive(Clone, Default)]
+pub struct GMesh {
+    pub vcount: u16,
+    pub material: u16,
+    pub bonetable: u16,
+    pub index_pad: usize,
+    pub decl: Vec<GElem>,
+    pub streams: Vec<(u8, Vec<u8>)>,
+    pub indices: Vec<u16>,
+    pub subs: Vec<GSub>,
+}
+
+#[derive(Clone, Default)]
+pub struct GLod {
+    pub mid: Vec<u8>,
+    pub edge_off: u32,
+    pub poly: u32,
+    pub meshes: Vec<GMesh>,
+}
+
+#[derive(Clone, Default)]
+pub struct GShape {
+    pub name: Vec<u8>,
+    pub start: [u16; 3],
+    pub count: [u16; 3],
+}
+
+#[derive(Clone, Default)]
+pub struct GModel {
+    pub ver: u32,
+    pub fmc: u16,
+    pub streaming: bool,
+    pub edge: bool,
+    pub lodn: u8,
+    pub misc: [u32; 13],
+    pub attrs: Vec<Vec<u8>>,
+    pub bones: Vec<Vec<u8>>,
+    pub mats: Vec<Vec<u8>>,
+    pub eids: Vec<Vec<u8>>,
+    pub tsm: Vec<Vec<u8>>,
+    pub tss: Vec<Vec<u8>>,
+    pub bt: Vec<(Vec<u16>, u8)>,
+    pub bt2: Vec<(u16, Vec<u16>, u16)>,
+    pub map: Vec<u16>,
+    pub pad: Vec<u8>,
+    pub bbs: Vec<u8>,
+    pub bbb: Vec<Vec<u8>>,
+    pub shapes: Vec<GShape>,
+    pub shm: Vec<(u32, u32, u32)>,
+    pub shv: Vec<(u16, u16)>,
+    pub lods: Vec<GLod>,
+}
+
+fn hex_list(l: &[Vec<u8>]) -> String {
+    if l.is_empty() {
+        "-".into()
+    } else {
+        l.iter().map(|x| hex(x)).collect::<Vec<_>>().join(",")
+    }
+}
+
+fn u16be_hex(l: &[u16]) -> String {
+    if l.is_empty() {
+        return "-".into();
+    }
+    let mut s = String::with_capacity(l.len() * 4);
+    for v in l {
+        let _ = write!(s, "{:04x}", v);
+    }
+    s
+}
+
+fn join_or_dash(l: Vec<String>, sep: &str) -> String {
+    if l.is_empty() { "-".into() } else { l.join(sep) }
+}
+
+impl GModel {
+    pub fn tokens(&self) -> String {
+        let mut s = String::new();
+        let _ = write!(
+            s,
+            "ver={} fmc={} str={} edge={} lodn={} misc={}",
+            self.ver,
+            self.fmc,
+            self.streaming as u8,
+            self.edge as u8,
+            self.lodn,
+            self.misc.iter().map(|x| x.to_string()).collect::<Vec<_>>().join(",")
+        );
+        let _ = write!(s, " attrs={} bones={} mats={}", hex_list(&self.attrs), hex_list(&self.bones), hex_list(&self.mats));
+        let _ = write!(s, " eids={} tsm={} tss={}", hex_list(&self.eids), hex_list(&self.tsm), hex_list(&self.tss));
+        let _ = write!(
+            s,
+            " bt={}",
+            join_or_dash(self.bt.iter().map(|(ix, c)| format!("{}:{}", u16be_hex(ix), c)).collect(), ",")
+        );
+        let _ = write!(
+            s,
+            " bt2={}",
+            join_or_dash(self.bt2.iter().map(|(c, ix, p)| format!("{}:{}:{}", c, u16be_hex(ix), p)).collect(), ",")
+        );
+        let _ = write!(s, " map={}", join_or_dash(self.map.iter().map(|x| x.to_string()).collect(), ","));
+        let _ = write!(s, " pad={} bbs={} bbb={}", hex(&self.pad), hex(&self.bbs), hex_list(&self.bbb));
+        let _ = write!(
+            s,
+            " shapes={}",
+            join_or_dash(
+                self.shapes
+                    .iter()
+                    .map(|sh| {
+                        format!(
+                            "{}:{}.{}.{}:{}.{}.{}",
+                            hex(&sh.name),
+                            sh.start[0],
+                            sh.start[1],
+                            sh.start[2],
+                            sh.count[0],
+                            sh.count[1],
+                            sh.count[2]
+                        )
+                    })
+                    .collect(),
+                ","
+            )
+        );
+        let _ = write!(
+            s,
+            " shm={}",
+            join_or_dash(self.shm.iter().map(|(a, b, c)| format!("{}:{}:{}", a, b, c)).collect(), ",")
+        );
+        let _ = write!(s, " shv={}", join_or_dash(self.shv.iter().map(|(a, b)| format!("{}:{}", a, b)).collect(), ","));
+        for l in &self.lods {
+            let _ = write!(s, " lod={}:{}:{}", hex(&l.mid), l.edge_off, l.poly);
+            for m in &l.meshes {
+                let mut decl = Vec::new();
+                for e in &m.decl {
+                    decl.extend_from_slice(&[e.stream, e.offset, e.ty, e.usage, e.uidx]);
+                }
+                let streams =
+                    join_or_dash(m.streams.iter().map(|(st, d)| format!("{}:{}", st, hex(d))).collect(), "/");
+                let subs = join_or_dash(
+                    m.subs
+                        .iter()
+                        .map(|x| format!("{}:{}:{}:{}:{}", x.off, x.count, x.mask, x.bstart, x.bcount))
+                        .collect(),
+                    "/",
+                );
+                let _ = write!(
+                    s,
+                    " mesh={};{};{};{};{};{};{};{}",
+                    m.vcount,
+                    m.material,
+                    m.bonetable,
+                    m.index_pad,
+                    hex(&decl),
+                    streams,
+                    u16be_hex(&m.indices),
+                    subs
+                );
+            }
+        }
+        s
+    }
+}
+
+// (usage, type, size) combinations supported by the reader
+pub const COMBOS: &[(u8, u8, u8)] = &[
+    (0, 3, 16), // Position Single4
+    (0, 14, 8), // Position Half4
+    (0, 2, 12), // Position Single3
+    (1, 8, 4),  // BlendWeights ByteFloat4
+    (1, 5, 4),  // BlendWeights Byte4
+    (1, 17, 8), // BlendWeights UnsignedShort4
+    (2, 5, 4),  // BlendIndices Byte4
+    (2, 17, 8), // BlendIndices UnsignedShort4
+    (3, 14, 8), // Normal Half4
+    (3, 2, 12), // Normal Single3
+    (4, 8, 4),  // UV ByteFloat4
+    (4, 14, 8), // UV Half4
+    (4, 3, 16), // UV Single4
+    (4, 13, 4), // UV Half2
+    (6, 8, 4),  // BiTangent ByteFloat4
+    (5, 8, 0),  // Tangent ByteFloat4 (skipped unread)
+    (7, 8, 4),  // Color ByteFloat4
+];
+
+/// combinations the *writer* supports with an encoder that inverts the reader (C07's canonical set)
+pub const WCOMBOS: &[(u8, u8, u8)] = &[
+    (0, 3, 16),
+    (0, 14, 8),
+    (0, 2, 12),
+    (1, 8, 4),
+    (2, 5, 4),
+    (3, 14, 8),
+    (3, 2, 12),
+    (4, 14, 8),
+    (4, 3, 16),
+    (6, 8, 4),
+    (7, 8, 4),
+];
+
+/// reader-supported pairs the writer cannot reproduce (finding c07.writer-unsupported-layout)
+pub const D9COMBOS: &[(u8, u8, u8)] = &[
+    (4, 13, 4),
+    (4, 8, 4),
+    (1, 17, 8),
+    (2, 17, 8),
+    (5, 8, 0),
+    (1, 5, 4),
+    (0, 2, 12),
+    (3, 14, 8),
+    (7, 8, 4),
+];
+
+pub fn name(rng: &mut Rng, latin1: bool) -> Vec<u8> {
+    let n = match rng.below(8) {
+        0 => 0,
+        1 => 1,
+        _ => rng.range(2, 24),
+    } as usize;
+    (0..n)
+        .map(|_| {
+            if latin1 && rng.chance(1, 6) {
+                rng.range(0x80, 0xFF) as u8
+            } else if rng.chance(1, 10) {
+                rng.range(1, 0x7F) as u8
+            } else {
+                rng.range(b'a' as u64, b'z' as u64) as u8
+            }
+        })
+        .collect()
+}
+
+fn interesting_f32(rng: &mut Rng) -> u32 {
+    match rng.below(10) {
+        0 => 0,
+        1 => 0x8000_0000,
+        2 => 0x3F80_0000,
+        3 => 0xBF80_0000,
+        4 => (rng.below(0x0080_0000)) as u32, // subnormal
+        5 => 0x7F80_0000,
+        6 => f32::to_bits((rng.below(2001) as f32 - 1000.0) / 64.0),
+        7 => f32::to_bits(rng.below(256) as f32 / 255.0),
+        _ => {
+            // finite, moderate exponent
+            let e = rng.range(100, 150) as u32;
+            ((rng.below(2) as u32) << 31) | (e << 23) | (rng.below(0x0080_0000) as u32)
+        }
+    }
+}
+
+/// stream bytes: mixtures of uniform bytes, structured floats/halves, and boundary patterns
+fn fill_stream(rng: &mut Rng, n: usize, nan_free: bool) -> Vec<u8> {
+    let mode = rng.below(5);
+    let mut v = Vec::with_capacity(n + 4);
+    while v.len() < n {
+        match mode {
+            0 => v.extend_from_slice(&rng.bytes(4)),
+            1 => v.extend_from_slice(&interesting_f32(rng).to_le_bytes()),
+            2 => {
+                // halves: all classes (zero, subnormal, normal, max, inf, nan)
+                for _ in 0..2 {
+                    let h: u16 = match rng.below(8) {
+                        0 => 0,
+                        1 => 0x8000,
+                        2 => rng.below(0x400) as u16,
+                        3 => 0x7BFF,
+                        4 => 0x7C00 | ((rng.below(2) as u16) << 15),
+                        5 => 0x3C00,
+                        _ => rng.below(0x10000) as u16,
+                    };
+                    v.extend_from_slice(&h.to_le_bytes());
+                }
+            }
+            3 => v.extend_from_slice(&[*rng.pick(&[0u8, 1, 127, 128, 254, 255]), rng.below(256) as u8, 0, 255]),
+            _ => v.extend_from_slice(&(rng.below(70000) as u32).to_le_bytes()),
+        }
+    }
+    v.truncate(n);
+    if nan_free {
+        // clear NaN half / f32 patterns conservatively: no 16-bit word with all exponent bits set
+        for i in (1..v.len()).step_by(2) {
+            if v[i] & 0x7C == 0x7C {
+                v[i] &= !0x40;
+            }
+        }
+        for i in 0..v.len() {
+            if v[i] & 0x7F == 0x7F {
+                v[i] &= !0x01;
+            }
+        }
+    }
+    v
+}
+
+fn half_non_nan(rng: &mut Rng) -> u16 {
+    loop {
+        let h: u16 = match rng.below(8) {
+            0 => 0,
+            1 => 0x8000,
+            2 => rng.below(0x400) as u16,
+            3 => 0x7BFF,
+            4 => 0x7C00 | ((rng.below(2) as u16) << 15),
+            5 => 0x3C00,
+            _ => rng.below(0x10000) as u16,
+        };
+        if (h & 0x7FFF) <= 0x7C00 {
+            return h;
+        }
+    }
+}
+
+/// canonical raw bytes of one element (what the writer reproduces), see `Spec/MdlEdit.lean`
+pub fn canonical_raw(rng: &mut Rng, usage: u8, ty: u8) -> Vec<u8> {
+    let mut v = Vec::new();
+    if usage == 5 {
+        return v; // tangents are skipped unread: the slot stays zero
+    }
+    match ty {
+        13 => {
+            for _ in 0..2 {
+                v.extend_from_slice(&half_non_nan(rng).to_le_bytes());
+            }
+        }
+        17 => v.extend_from_slice(&rng.bytes(8)),
+        2 => {
+            for _ in 0..3 {
+                v.extend_from_slice(&interesting_f32(rng).to_le_bytes());
+            }
+        }
+        3 => {
+            for i in 0..4 {
+                let x = if usage == 0 && i == 3 { 0x3F80_0000 } else { interesting_f32(rng) };
+                v.extend_from_slice(&x.to_le_bytes());
+            }
+        }
+        14 => {
+            for i in 0..4 {
+                let h = if usage == 0 && i == 3 {
+                    0x3C00
+                } else if usage == 3 && i == 3 {
+                    0
+                } else {
+                    half_non_nan(rng)
+                };
+                v.extend_from_slice(&h.to_le_bytes());
+            }
+        }
+        8 | 5 => {
+            for i in 0..4 {
+                let b = if usage == 6 && i == 3 {
+                    if rng.chance(1, 2) { 255 } else { 0 }
+                } else {
+                    match rng.below(6) {
+                        0 => 0,
+                        1 => 255,
+                        2 => 127,
+                        3 => 128,
+                        _ => rng.below(256) as u8,
+                    }
+                };
+                v.push(b);
+            }
+        }
+        _ => {}
+    }
+    v
+}
+
+/// `vcount` canonical records per stream for a declaration with the given strides
+pub fn canonical_streams(rng: &mut Rng, decl: &[GElem], strides: &[u8], vcount: usize) -> Vec<(u8, Vec<u8>)> {
+    let mut streams: Vec<(u8, Vec<u8>)> = strides.iter().map(|&st| (st, vec![0u8; st as usize * vcount])).collect();
+    for k in 0..vcount {
+        for e in decl {
+            let raw = canonical_raw(rng, e.usage, e.ty);
+            let (st, data) = &mut streams[e.stream as usize];
+            let at = k * (*st as usize) + e.offset as usize;
+            data[at..at + raw.len()].copy_from_slice(&raw);
+        }
+    }
+    streams
+}
+
+pub struct GenOpts {
+    pub max_meshes: usize,
+    pub max_vertices: usize,
+    pub combos: &'static [(u8, u8, u8)],
+    pub v5_only: bool,
+    pub canonical: bool, // C07: packed non-overlapping elements, no NaN, contiguous sub-meshes, no terrain shadow
+}
+
+pub fn gen_mesh(rng: &mut Rng, o: &GenOpts, start_index: usize) -> GMesh {
+    let vcount = match rng.below(10) {
+        0 => 0,
+        1 => 1,
+        2 => 2,
+        3..=7 => rng.range(3, 40),
+        _ => rng.range(3, o.max_vertices as u64),
+    } as usize;
+    let nstreams = rng.range(1, 3) as usize;
+    let nel = if o.canonical { rng.range(1, 7) } else { match rng.below(10) { 0 => 1, 1 => 16, _ => rng.range(2, 9) } } as usize;
+    let mut decl = Vec::new();
+    let mut used: Vec<usize> = vec![0; nstreams]; // packed size per stream
+    let mut usages_taken: Vec<u8> = Vec::new();
+    for _ in 0..nel {
+        let &(usage, ty, size) = rng.pick(o.combos);
+        if o.canonical && usages_taken.contains(&usage) {
+            continue;
+        }
+        usages_taken.push(usage);
+        let stream = rng.below(nstreams as u64) as usize;
+        let alloc = if size == 0 { 4 } else { size as usize };
+        let offset = if o.canonical || rng.chance(3, 4) {
+            used[stream]
+        } else {
+            rng.below((used[stream] + 8) as u64) as usize // arbitrary, may overlap others
+        };
+        if offset + alloc > 255 {
+            continue;
+        }
+        used[stream] = used[stream].max(offset + alloc);
+        decl.push(GElem { stream: stream as u8, offset: offset as u8, ty, usage, uidx: rng.below(3) as u8 });
+    }
+    if decl.is_empty() {
+        decl.push(GElem { stream: 0, offset: 0, ty: 2, usage: 0, uidx: 0 });
+        used[0] = used[0].max(12);
+    }
+    let mut streams = Vec::new();
+    for s in 0..nstreams {
+        let slack = if rng.chance(1, 3) { rng.below(9) as usize } else { 0 };
+        let stride = (used[s] + slack).min(255);
+        streams.push((stride as u8, fill_stream(rng, stride * vcount, o.canonical)));
+    }
+    if o.canonical {
+        let strides: Vec<u8> = streams.iter().map(|x| x.0).collect();
+        streams = canonical_streams(rng, &decl, &strides, vcount);
+    }
+    let mut nidx = match rng.below(6) {
+        0 => 0,
+        1 => vcount.min(3),
+        _ => rng.below((3 * vcount + 1) as u64) as usize,
+    };
+    // the index count is a u32: now and then an index list at and beyond the 16-bit boundary
+    if !o.canonical && rng.chance(1, 40) {
+        nidx = *rng.pick(&[65535usize, 65536, 65537, 65545, 70001, 131072 + 7]);
+    }
+    let indices: Vec<u16> = (0..nidx)
+        .map(|_| if vcount == 0 || (!o.canonical && rng.chance(1, 50)) { rng.below(65536) as u16 } else { rng.below(vcount as u64) as u16 })
+        .collect();
+    let index_pad = if o.canonical || rng.chance(2, 3) { (8 - (start_index + nidx) % 8) % 8 } else { rng.below(9) as usize };
+    // sub-meshes
+    let nsub = if o.canonical { rng.range(1, 4) } else { rng.below(5) } as usize;
+    let mut subs = Vec::new();
+    let mut cuts: Vec<usize> = (0..nsub.saturating_sub(1)).map(|_| rng.below((nidx + 1) as u64) as usize).collect();
+    cuts.sort();
+    let mut prev = 0usize;
+    for i in 0..nsub {
+        let end = if i + 1 == nsub { nidx } else { cuts[i] };
+        let (off, count) = if o.canonical || rng.chance(4, 5) {
+            ((start_index + prev) as u32, (end - prev) as u32)
+        } else {
+            (rng.u32_edge(), rng.u32_edge())
+        };
+        subs.push(GSub { off, count, mask: rng.u32_edge(), bstart: rng.below(300) as u16, bcount: rng.below(64) as u16 });
+        prev = end;
+    }
+    GMesh {
+        vcount: vcount as u16,
+        material: rng.below(4) as u16,
+        bonetable: rng.below(3) as u16,
+        index_pad,
+        decl,
+        streams,
+        indices,
+        subs,
+    }
+}
+
+pub fn gen_model(rng: &mut Rng, o: &GenOpts) -> GModel {
+    let mut m = GModel::default();
+    m.ver = if o.v5_only || rng.chance(1, 2) { 0x1000005 } else { 0x1000006 };
+    if !o.v5_only && rng.chance(1, 20) {
+        m.ver = *rng.pick(&[0x1000004u32, 0x1000007, 5, 0x2000000]);
+    }
+    m.fmc = rng.below(5) as u16;
+    m.streaming = rng.chance(1, 4);
+    m.edge = rng.chance(1, 4);
+    m.lodn = rng.range(1, 3) as u8;
+    let f1 = 1u32 << rng.below(8);
+    let f2 = if rng.chance(1, 3) { 0 } else { 1u32 << rng.below(8) };
+    let fl = |rng: &mut Rng| if o.canonical { f32::to_bits(rng.below(1000) as f32 / 8.0) } else { interesting_f32(rng) };
+    m.misc = [
+        fl(rng),
+        f1,
+        f2,
+        fl(rng),
+        fl(rng),
+        rng.below(65536) as u32,
+        rng.below(256) as u32,
+        rng.below(256) as u32,
+        rng.below(256) as u32,
+        rng.below(256) as u32,
+        rng.below(65536) as u32,
+        rng.below(65536) as u32,
+        rng.below(65536) as u32,
+    ];
+    let latin1 = !o.canonical;
+    m.attrs = (0..rng.below(4)).map(|_| name(rng, latin1)).collect();
+    m.bones = (0..rng.below(5)).map(|_| name(rng, latin1)).collect();
+    m.mats = (0..rng.below(4)).map(|_| name(rng, latin1)).collect();
+    m.eids = (0..rng.below(3)).map(|_| fill_stream(rng, 32, o.canonical)).collect();
+    if !o.canonical {
+        m.tsm = (0..rng.below(3)).map(|_| rng.bytes(20)).collect();
+        m.tss = (0..rng.below(3)).map(|_| rng.bytes(12)).collect();
+    }
+    let nbt = rng.below(3) as usize;
+    if m.ver <= 0x1000005 {
+        m.bt = (0..nbt).map(|_| ((0..64).map(|_| rng.below(400) as u16).collect(), rng.below(65) as u8)).collect();
+    } else {
+        m.bt2 = (0..nbt)
+            .map(|_| {
+                let c = rng.below(9) as u16;
+                let pad = if c % 2 == 0 { rng.below(65536) as u16 } else { 0 };
+                (c, (0..c).map(|_| rng.below(400) as u16).collect(), pad)
+            })
+            .collect();
+    }
+    m.map = (0..rng.below(12)).map(|_| rng.below(400) as u16).collect();
+    let npad = rng.below(16) as usize;
+    m.pad = rng.bytes(npad);
+    m.bbs = fill_stream(rng, 128, o.canonical);
+    m.bbb = (0..m.bones.len()).map(|_| fill_stream(rng, 32, o.canonical)).collect();
+    for l in 0..3 {
+        let mut lod = GLod { mid: fill_stream(rng, 28, o.canonical), edge_off: rng.u32_edge(), poly: rng.u32_edge(), meshes: vec![] };
+        let nm = if l < m.lodn as usize || (!o.canonical && rng.chance(1, 6)) { rng.range(if l == 0 { 1 } else { 0 }, o.max_meshes as u64) as usize } else { 0 };
+        let mut start = 0usize;
+        for _ in 0..nm {
+            let mesh = gen_mesh(rng, o, start);
+            start += mesh.indices.len() + mesh.index_pad;
+            lod.meshes.push(mesh);
+        }
+        m.lods.push(lod);
+    }
+    // shapes: reference real meshes so that the selection rule is exercised
+    let nshapes = rng.below(4) as usize;
+    for _ in 0..nshapes {
+        let mut sh = GShape { name: name(rng, latin1), start: [0; 3], count: [0; 3] };
+        for l in 0..3 {
+            let k = rng.below(3) as usize;
+            if m.lods[l].meshes.is_empty() || k == 0 {
+                continue;
+            }
+            sh.start[l] = m.shm.len() as u16;
+            sh.count[l] = k as u16;
+            for _ in 0..k {
+                // pick a mesh of this LOD; its start index is the sum of the preceding index words
+                // the reader indexes the mesh-local index list with the LOD-global index, so only the
+                // first mesh of a LOD (start 0) can carry shape values without leaving the list
+                let mi = if rng.chance(6, 7) { 0 } else { rng.below(m.lods[l].meshes.len() as u64) as usize };
+                let start: usize = m.lods[l].meshes[..mi].iter().map(|x| x.indices.len() + x.index_pad).sum();
+                let mesh = &m.lods[l].meshes[mi];
+                let nv = rng.below(5) as usize;
+                let voff = m.shv.len() as u32;
+                let mut pushed = 0u32;
+                for _ in 0..nv {
+                    let ni = mesh.indices.len();
+                    if o.canonical && (ni <= start || mesh.vcount == 0) {
+                        continue; // C07: shape tables always refer inside the mesh
+                    }
+                    let base = if ni > start && (o.canonical || !rng.chance(1, 40)) {
+                        start + rng.below((ni - start) as u64) as usize
+                    } else if ni > 0 && !rng.chance(1, 12) {
+                        start + rng.below(ni as u64) as usize
+                    } else {
+                        rng.below(70) as usize
+                    };
+                    let repl = if mesh.vcount > 0 && (o.canonical || !rng.chance(1, 60)) { rng.below(mesh.vcount as u64) as u16 } else { rng.below(400) as u16 };
+                    m.shv.push((base as u16, repl));
+                    pushed += 1;
+                }
+                let off = if !o.canonical && rng.chance(1, 10) { rng.below(40) as u32 } else { start as u32 };
+                m.shm.push((off, pushed, voff));
+            }
+        }
+        m.shapes.push(sh);
+    }
+    m
+}
+
+/// a model whose only mesh carries `data` (vcount × stride bytes) in stream 0 under `decl`
+pub fn single_stream_model(decl: Vec<GElem>, stride: u8, vcount: u16, data: Vec<u8>) -> GModel {
+    let mut m = GModel::default();
+    m.ver = 0x1000005;
+    m.lodn = 1;
+    m.misc = [0, 1, 0, 0, 0, 0, 0, 0, 0, 0, 0, 0, 0];
+    m.bbs = vec![0; 128];
+    for l in 0..3 {
+        m.lods.push(GLod { mid: vec![0; 28], edge_off: 0, poly: 0, meshes: vec![] });
+    }
+    m.lods[0].meshes.push(GMesh {
+        vcount,
+        material: 0,
+        bonetable: 0,
+        index_pad: 0,
+        decl,
+        streams: vec![(stride, data)],
+        indices: vec![],
+        subs: vec![],
+    });
+    m
+}
+
+pub fn generate(thorough: bool, seed: u64, out: &mut dyn Write) {
+    let mut rng = Rng::new(seed, "C06");
+    // the repository's sample (correspondence of the model on a real-world layout)
+    if let Ok(b) = std::fs::read(sample_path()) {
+        writeln!(out, "raw {}", hex(&b)).unwrap();
+    }
+    // T2, exhaustive in every run: all 65 536 half patterns through read_half4 (UV Half4: all four
+    // components are reported) and read_half2, all 256 byte values through every byte codec
+    for hi in 0..256u32 {
+        let mut data = Vec::with_capacity(512);
+        for lo in 0..256u32 {
+            data.extend_from_slice(&(((hi << 8) | lo) as u16).to_le_bytes());
+        }
+        let m = single_stream_model(vec![GElem { stream: 0, offset: 0, ty: 14, usage: 4, uidx: 0 }], 8, 64, data.clone());
+        writeln!(out, "parse {}", m.tokens()).unwrap();
+        if hi % 16 == 0 || thorough {
+            let m = single_stream_model(vec![GElem { stream: 0, offset: 0, ty: 13, usage: 4, uidx: 0 }], 4, 128, data.clone());
+            writeln!(out, "parse {}", m.tokens()).unwrap();
+            let m = single_stream_model(
+                vec![GElem { stream: 0, offset: 0, ty: 14, usage: 0, uidx: 0 }, GElem { stream: 0, offset: 8, ty: 14, usage: 3, uidx: 0 }],
+                16,
+                32,
+                data,
+            );
+            writeln!(out, "parse {}", m.tokens()).unwrap();
+        }
+    }
+    let all_bytes: Vec<u8> = (0..=255u8).collect();
+    // rotate so that every byte value appears in every component position (w is special for tangents)
+    for rot in 0..4usize {
+        let data: Vec<u8> = (0..256usize).map(|i| all_bytes[(i + rot * 65) % 256]).collect();
+        for &(usage, ty) in &[(7u8, 8u8), (6, 8), (1, 8), (1, 5), (4, 8), (2, 5)] {
+            let m = single_stream_model(vec![GElem { stream: 0, offset: 0, ty, usage, uidx: 0 }], 4, 64, data.clone());
+            writeln!(out, "parse {}", m.tokens()).unwrap();
+        }
+        let m = single_stream_model(vec![GElem { stream: 0, offset: 0, ty: 17, usage: 1, uidx: 0 }, GElem { stream: 0, offset: 0, ty: 17, usage: 2, uidx: 0 }], 8, 32, data.clone());
+        writeln!(out, "parse {}", m.tokens()).unwrap();
+    }
+    // every (usage, type) pair of the two enums once — unsupported ones are outside the quantifier
+    // (the reader panics); they validate the model's switch
+    if thorough {
+        for usage in 0..8u8 {
+            for ty in [0u8, 1, 2, 3, 5, 6, 7, 8, 9, 10, 13, 14, 16, 17] {
+                let m = single_stream_model(vec![GElem { stream: 0, offset: 0, ty, usage, uidx: 0 }], 16, 2, rng.bytes(32));
+                writeln!(out, "parse {}", m.tokens()).unwrap();
+            }
+        }
+    }
+    let n = if thorough { 40000 } else { 300 };
+    for i in 0..n {
+        let o = GenOpts {
+            max_meshes: if i % 7 == 0 { 6 } else { 3 },
+            max_vertices: if thorough && i % 20 == 0 { 3000 } else { 300 },
+            combos: COMBOS,
+            v5_only: false,
+            canonical: false,
+        };
+        let m = gen_model(&mut rng, &o);
+        writeln!(out, "parse {}", m.tokens()).unwrap();
+    }
+}
+
+pub fn sample_path() -> std::path::PathBuf {
+    let root = std::env::var("VERIF_REPO").unwrap_or_else(|_| "/repo".into());
+    std::path::PathBuf::from(root).join("resources/tests/c0201e0038_top_zeroed.mdl")
+}
+
+// ---------------------------------------------------------------------------------------------
+// canonical text of a parse result (must match `Driver/C06Case.lean` `viewText`)
+// ---------------------------------------------------------------------------------------------
+fn f32hex(s: &mut String, x: f32) {
+    let b = if x.is_nan() { 0x7FC0_0000 } else { x.to_bits() };
+    let _ = write!(s, "{:08x}", b);
+}
+
+pub fn vertices_text(vs: &[Vertex]) -> String {
+    if vs.is_empty() {
+        return "-".into();
+    }
+    let mut s = String::with_capacity(vs.len() * 184);
+    for v in vs {
+        for x in v.position.iter().chain(&v.uv0).chain(&v.uv1).chain(&v.normal).chain(&v.bitangent).chain(&v.color).chain(&v.bone_weight) {
+            f32hex(&mut s, *x);
+        }
+        for b in v.bone_id {
+            let _ = write!(s, "{:02x}", b);
+        }
+    }
+    s
+}
+
+pub fn part_text(p: &Part) -> String {
+    let sm = join_or_dash(p.submeshes.iter().map(|s| format!("{}:{}", s.index_count, s.index_offset)).collect(), ",");
+    let sh = join_or_dash(
+        p.shapes.iter().map(|s| format!("{}:{}", hex(s.name.as_bytes()), vertices_text(&s.morphed_vertices))).collect(),
+        ",",
+    );
+    let st = join_or_dash(
+        p.vertex_stream_strides.iter().zip(p.vertex_streams.iter()).map(|(st, d)| format!("{}:{}", st, hex(d))).collect(),
+        ",",
+    );
+    format!("P mat={} v={} i={} sm={} sh={} st={}", p.material_index, vertices_text(&p.vertices), u16be_hex(&p.indices), sm, sh, st)
+}
+
+pub fn mdl_text(m: &MDL) -> String {
+    let mut s = String::new();
+    let _ = write!(
+        s,
+        "ok bones={} mats={}",
+        join_or_dash(m.affected_bone_names.iter().map(|n| hex(n.as_bytes())).collect(), ","),
+        join_or_dash(m.material_names.iter().map(|n| hex(n.as_bytes())).collect(), ",")
+    );
+    for l in &m.lods {
+        s.push_str(" L");
+        for p in &l.parts {
+            s.push(' ');
+            s.push_str(&part_text(p));
+        }
+    }
+    s
+}
+
+/// `panic:<file>:<line>` -> `panic` (the model does not carry source locations)
+pub fn strip_panic(s: String) -> String {
+    if s.starts_with("panic:") && std::env::var("VERIF_PANICLOC").is_err() { "panic".into() } else { s }
+}
 
 pub fn run(case: &str, input: &str) -> String {
-    "unimplemented".to_string()
+    let f: Vec<&str> = input.split(' ').collect();
+    if f.len() != 2 || (f[0] != "parse" && f[0] != "raw") {
+        return "bad-case".into();
+    }
+    let Some(bytes) = unhex(f[1]) else { return "bad-case".into() };
+    strip_panic(guarded(move || match MDL::from_existing(&bytes) {
+        Some(m) => mdl_text(&m),
+        None => "none".into(),
+    }))
 }
 
 pub fn dump(out: &mut dyn Write) {}
